@@ -9,7 +9,7 @@ demo=$(ls $SRC/*_test.go 2>/dev/null | head -1)
 [ -n "$demo" ] || { echo "no demo test in $SRC"; exit 2; }
 pkg=$(grep -m1 '^package ' $demo | awk '{print $2}')
 case $pkg in
-  service|service_test) dir=service;; main) dir=cmd/outline-ss-server;; net) dir=net;; prometheus) dir=prometheus;; ipinfo) dir=ipinfo;; metrics) dir=service/metrics;; integration_test) dir=internal/integration_test;;
+  service|service_test) dir=service;; net_test) dir=net;; main) dir=cmd/outline-ss-server;; net) dir=net;; prometheus) dir=prometheus;; ipinfo) dir=ipinfo;; metrics) dir=service/metrics;; integration_test) dir=internal/integration_test;;
   *) echo "unknown demo package $pkg"; exit 2;;
 esac
 a=$(mktemp -d /tmp/seedA.XXXX); b=$(mktemp -d /tmp/seedB.XXXX)
